@@ -26,7 +26,7 @@ Next ==
   /\ tid <= N
   /\ IF l <= Len(Traces[tid].ev)
      THEN LET r == Lower(Traces[tid].proto, f, Traces[tid].ev[l])
-          IN /\ s' = Fold(s, r.out)
+          IN /\ s' = Fold([s EXCEPT !.n = l], r.out)
              /\ f' = r.f
              /\ l' = l + 1
              /\ tid' = tid
